@@ -39,9 +39,11 @@ enum OpKind
 {
   OP_EMIT = 1,     // a=form b=body alternative c=attribute seed d=seed
   OP_SCOPE_BEGIN,  // a=span index b=scope index
-  OP_SCOPE_END     // a=scope index
+  OP_SCOPE_END,    // a=scope index
+  OP_CTX_BEGIN     // a=span index b=scope index: attach a context whose span key holds a
+                   // shared_ptr<SpanContext> (not a Span)
 };
-const int kForms = 19, kSpans = 5, kScopes = 6;
+const int kForms = 22, kSpans = 5, kScopes = 6;
 const int64_t kExplicitTs = 1650000000000000000ll;
 
 std::string hex(const uint8_t *p, size_t n)
@@ -147,6 +149,7 @@ struct TaskState
 {
   int idx = 0;
   std::vector<std::unique_ptr<trace_api::Scope>> scopes;
+  std::vector<nostd::unique_ptr<opentelemetry::context::Token>> tokens;  // OP_CTX_BEGIN
   std::vector<int> scope_span;
   std::vector<int> active;
 };
@@ -380,6 +383,58 @@ void do_emit(TaskState &ts, const Op &op, int64_t tag)
         L.EmitLogRecord(sev, PairSpan(p.data(), p.size()), mp);
         break;
       }
+      case 19: {
+        // virtual Log(severity, EventId, format, KeyValueIterable)
+        PairVec pv = pairs(false);
+        struct It final : common::KeyValueIterable
+        {
+          PairVec v;
+          bool ForEachKeyValue(nostd::function_ref<bool(nostd::string_view, common::AttributeValue)>
+                                   cb) const noexcept override
+          {
+            for (auto &e : v)
+              if (!cb(e.first, e.second))
+                return false;
+            return true;
+          }
+          size_t size() const noexcept override { return v.size(); }
+        } it;
+        it.v         = pv;
+        m.severity   = (int)sev;
+        m.event_id   = (int64_t)(seed % 5000);
+        m.event_name = "evt" + std::to_string(seed % 7);
+        L.Log(sev, logs_api::EventId(m.event_id, ks.view(m.event_name)), body_sv(seed), it);
+        break;
+      }
+      case 20: {
+        // virtual Log(severity, int64 event id, format, KeyValueIterable)
+        PairVec pv = pairs(false);
+        struct It final : common::KeyValueIterable
+        {
+          PairVec v;
+          bool ForEachKeyValue(nostd::function_ref<bool(nostd::string_view, common::AttributeValue)>
+                                   cb) const noexcept override
+          {
+            for (auto &e : v)
+              if (!cb(e.first, e.second))
+                return false;
+            return true;
+          }
+          size_t size() const noexcept override { return v.size(); }
+        } it;
+        it.v       = pv;
+        m.severity = (int)sev;
+        m.event_id = (int64_t)(seed % 5000);
+        L.Log(sev, m.event_id, body_sv(seed), it);
+        break;
+      }
+      case 21: {
+        // convenience wrapper: Warn(args...) = EmitLogRecord(Severity::kWarn, args...)
+        auto p     = pairs(true);
+        m.severity = (int)logs_api::Severity::kWarn;
+        L.Warn(body_value(), PairSpan(p.data(), p.size()));
+        break;
+      }
       default: {
         // record created under the current active span, emitted under another one
         auto rec = L.CreateLogRecord();
@@ -404,6 +459,7 @@ void run_program(int idx, const TaskProg &t)
   TaskState ts;
   ts.idx = idx;
   ts.scopes.resize(kScopes);
+  ts.tokens.resize(kScopes);
   ts.scope_span.assign(kScopes, -1);
   for (size_t oi = 0; oi < t.ops.size(); ++oi)
   {
@@ -422,17 +478,35 @@ void run_program(int idx, const TaskProg &t)
           ts.active.push_back((int)(op.a % kSpans));
         }
         break;
+      case OP_CTX_BEGIN:
+        if (!ts.scopes[op.b] && !ts.tokens[op.b])
+        {
+          // the active "span" is a bare SpanContext stored under the span key
+          auto sc = W->spans[op.a % kSpans]->GetContext();
+          nostd::shared_ptr<trace_api::SpanContext> scp(new trace_api::SpanContext(sc));
+          ts.tokens[op.b] = opentelemetry::context::RuntimeContext::Attach(
+              opentelemetry::context::RuntimeContext::GetCurrent().SetValue(trace_api::kSpanKey, scp));
+          ts.scope_span[op.b] = (int)(op.a % kSpans);
+          ts.active.push_back((int)(op.a % kSpans));
+          vsim::probe("logs.spancontext_in_context");
+        }
+        break;
       case OP_SCOPE_END:
-        if (ts.scopes[op.a] && !ts.active.empty() && ts.active.back() == ts.scope_span[op.a])
+        if ((ts.scopes[op.a] || ts.tokens[op.a]) && !ts.active.empty() &&
+            ts.active.back() == ts.scope_span[op.a])
         {
           ts.scopes[op.a].reset();
+          ts.tokens[op.a].reset();
           ts.active.pop_back();
         }
         break;
     }
   }
   for (size_t i = ts.scopes.size(); i-- > 0;)
+  {
     ts.scopes[i].reset();
+    ts.tokens[i].reset();
+  }
 }
 
 void generate(const std::string &, Rng &wl, Rng &fl, Case &c)
@@ -468,7 +542,8 @@ void generate(const std::string &, Rng &wl, Rng &fl, Case &c)
       double r = wl.real();
       if (r < 0.2 && nscope < kScopes)
       {
-        p.ops.push_back({OP_SCOPE_BEGIN, (int64_t)wl.below(kSpans), nscope, 0, 0});
+        p.ops.push_back({wl.chance(0.25) ? OP_CTX_BEGIN : OP_SCOPE_BEGIN, (int64_t)wl.below(kSpans),
+                         nscope, 0, 0});
         open.push_back(nscope++);
       }
       else if (r < 0.3 && !open.empty())
@@ -501,8 +576,8 @@ void generate(const std::string &, Rng &wl, Rng &fl, Case &c)
           if (!ok)
             aseed = 0;
           // forms whose body is a string_view by construction
-          static const int64_t scalar_forms[] = {0, 2, 3, 4, 6, 7, 8, 10, 11, 12, 14, 15, 16, 17, 18};
-          form = scalar_forms[wl.below(15)];
+          static const int64_t scalar_forms[] = {0, 2, 3, 4, 6, 7, 8, 10, 11, 12, 14, 15, 16, 17, 18, 21};
+          form = scalar_forms[wl.below(16)];
         }
         p.ops.push_back({OP_EMIT, form, alt, aseed, (int64_t)(wl.next() >> 2)});
       }
@@ -691,7 +766,10 @@ std::string describe_op(const Case &, int, const Op &op)
                                 "(SpanId only, Severity, attrs)",
                                 "(EventId(id), Severity, attrs)",
                                 "(Severity, attrs, second attrs overriding a key)",
-                                "record created under one active span, emitted under another"};
+                                "record created under one active span, emitted under another",
+                                "Log(Severity, EventId, format, KeyValueIterable)",
+                                "Log(Severity, int64 event id, format, KeyValueIterable)",
+                                "Warn(body, attrs)"};
   switch (op.kind)
   {
     case OP_EMIT:
@@ -701,6 +779,9 @@ std::string describe_op(const Case &, int, const Op &op)
       return fmt("scope[%lld] = Scope(span #%lld)", (long long)op.b, (long long)op.a);
     case OP_SCOPE_END:
       return fmt("destroy scope[%lld]", (long long)op.a);
+    case OP_CTX_BEGIN:
+      return fmt("scope[%lld] = Attach(current.SetValue(span key, shared_ptr<SpanContext> of span #%lld))",
+                 (long long)op.b, (long long)op.a);
   }
   return "?";
 }
@@ -737,7 +818,7 @@ const EngineDesc g_engine = {
     kReal,
     kStub,
     "one run = 1-3 processors (simple/batch mix behind the multi processor), 1-3 emitting tasks "
-    "x 1-8 operations (Scope begin/end on the task's own stack; Emit in one of 19 argument "
+    "x 1-8 operations (Scope begin/end on the task's own stack; Emit in one of 22 argument "
     "forms: severity, string/AttributeValue body over all 16 alternatives, attributes as pair "
     "span / KeyValueIterable / std::map, timestamps, EventId with and without name, explicit "
     "SpanContext / TraceId+SpanId+TraceFlags / SpanId only, reversed order, two bodies, two "
